@@ -26,8 +26,8 @@ from .registry import (
     class_decorators,
 )
 
-FEAS_TIMEOUT_MS = 3000
-OBL_TIMEOUT_MS = 20000
+FEAS_TIMEOUT_MS = 400
+OBL_TIMEOUT_MS = 15000
 
 
 class Reject(Exception):
@@ -227,6 +227,49 @@ class LoopCtx:
         return self.entry_env[n].z
 
 
+_hq_cache = {}
+
+
+def has_quantifier(e):
+    k = e.get_id()
+    r = _hq_cache.get(k)
+    if r is not None:
+        return r
+    todo = [e]
+    seen = set()
+    r = False
+    while todo:
+        x = todo.pop()
+        i = x.get_id()
+        if i in seen:
+            continue
+        seen.add(i)
+        if z3.is_quantifier(x):
+            r = True
+            break
+        todo.extend(x.children())
+    _hq_cache[k] = r
+    return r
+
+
+class Fact:
+    """An instance of a lemma that is proved elsewhere as an obligation (or a definitional axiom of a
+    spec function). Only spec-theory modules mint these; the evidence lists the names used."""
+
+    def __init__(self, name, z):
+        self.name = name
+        self.z = z
+
+
+class Step:
+    """An intermediate assertion supplied by a proof hook: it is an obligation like any other
+    (checked, then available to later obligations on the path)."""
+
+    def __init__(self, name, z):
+        self.name = name
+        self.z = z
+
+
 class Obligation:
     def __init__(self, fn, name, site, pc, goal, key, kind="post"):
         self.fn = fn
@@ -304,6 +347,8 @@ class Run:
         self.alternatives = []
         self.solver = z3.Solver()
         self.solver.set("timeout", FEAS_TIMEOUT_MS)
+        self.solver_qf = z3.Solver()  # quantifier-free part of the path condition: fast, sound for pruning
+        self.solver_qf.set("timeout", 2000)
         self.pc = []
         self.heap = H.Heap()
         self.alloc0 = z3.Int("$alloc0")
@@ -324,10 +369,15 @@ class Run:
             return
         self.pc.append(b)
         self.solver.add(b)
+        if not has_quantifier(b):
+            self.solver_qf.add(b)
 
     def feasible(self, cond):
-        r = self.solver.check(cond)
-        return r != z3.unsat
+        if has_quantifier(cond):
+            return self.solver.check(cond) != z3.unsat
+        if self.solver_qf.check(cond) == z3.unsat:
+            return False
+        return self.solver.check(cond) != z3.unsat
 
     def choose(self, cond, label="if"):
         """Fork on a boolean z3 condition; returns the python bool taken on this path."""
@@ -381,6 +431,17 @@ class Run:
         if key not in self.v.obligations:
             self.v.obligations[key] = Obligation(self.v.qname, name, site, self.pc, goal, key, kind)
         self.assume(goal)
+
+    def use_fact(self, fct):
+        """Assume an instance of a proved lemma / a definitional axiom (minted by a spec-theory module),
+        or check-then-assume an intermediate proof step."""
+        if isinstance(fct, Step):
+            self.oblige("step." + fct.name, fct.z, site="step", kind="step")
+            return
+        if not isinstance(fct, Fact):
+            raise Reject("lemma hook returned a non-Fact")
+        self.v.facts_used.add(fct.name)
+        self.assume(fct.z)
 
     # ---- allocation ---------------------------------------------------------------------------
     def new_obj(self, cls_qname=None):
@@ -440,6 +501,28 @@ class Run:
         for f in self.type_facts(sv):
             self.assume(f)
         return sv
+
+    def assume_typed_deep(self, sv, depth=2):
+        """typing / representation facts of an argument and of what its fields reach (bounded depth)"""
+        self.assume_typed(sv)
+        t = sv.ty
+        if depth <= 0 or not isinstance(t, T.Ref) or t.cls is None or t.cls not in CLASSES:
+            return
+        for fn, ft in CLASSES[t.cls].all_fields().items():
+            if ft == T.OPAQUE or fn.startswith("$"):
+                continue
+            if T.is_container(ft) or (isinstance(ft, T.Ref) and ft.cls in CLASSES):
+                _, z = self.heap.rd(sv.z, t.cls, fn)
+                f = SV(ft, z)
+                if isinstance(ft, T.Ref):
+                    # facts about the target only make sense when the reference is not None
+                    facts = self.type_facts(f)
+                    for x in facts:
+                        self.assume(x)
+                    if not getattr(ft, "nullable", False):
+                        self.assume_typed_deep(f, depth - 1)
+                else:
+                    self.assume_typed(f)
 
     # ---- coercions ---------------------------------------------------------------------------
     def coerce(self, v, t):
@@ -1906,9 +1989,13 @@ class Run:
             new = H.fresh("lh_" + name, old.sort())
             if objs is not ANY:
                 r = z3.Int(H.fresh_name("fr_r"))
-                cond = z3.And(*[r != o for o in objs]) if objs else TRUE
+                cond = z3.And(r < self.v.alloc_entry, *[r != o for o in objs])
                 self.assume(z3.ForAll([r], z3.Implies(cond, z3.Select(new, r) == z3.Select(old, r)), patterns=[z3.Select(new, r)]))
             self.heap.set(name, new)
+        # objects allocated by earlier iterations: the allocation counter is unknown but not smaller
+        bump = z3.Int(H.fresh_name("lbump"))
+        self.assume(bump >= 0)
+        self.alloc0_shift(bump)
         return entry_env, set(mods), head_before
 
     def check_loop_frame(self, havoced, head_after_havoc):
@@ -1947,13 +2034,26 @@ class Run:
         mk_cc = lambda: Ctx(fn_args, pre, self.heap, run=self, alloc0=self.v.alloc_entry)
         tag = "%s.loop%d" % (fr.qname.split(".")[-1], k)
 
-        def inv_at(i, label, assume):
-            if spec is None or spec.inv is None:
-                return
+        iter_heap = [None]
+
+        def mkL(i):
             L = LoopCtx(i, it, fr.env, entry_env, head_before, "for")
             L.n = n
             L.elem = elem
             L.cont = cont
+            L.iter_heap = iter_heap[0]
+            return L
+
+        def lemmas_at(i, phase):
+            if spec is None or getattr(spec, "lemmas", None) is None:
+                return
+            for fct in spec.lemmas(mk_cc(), mkL(i), phase) or []:
+                self.use_fact(fct)
+
+        def inv_at(i, label, assume):
+            if spec is None or spec.inv is None:
+                return
+            L = mkL(i)
             for nm, g in _named(spec.inv(mk_cc(), L), "inv"):
                 if assume:
                     self.assume(g)
@@ -1978,14 +2078,18 @@ class Run:
                 for y in x.items:
                     self.assume_typed(y)
             self.assign(s.target, x)
+            iter_heap[0] = self.heap.copy()
+            lemmas_at(i, "start")
             try:
                 self.exec_block(s.body)
             except Continue_:
                 pass
             except Break_:
                 self.check_loop_frame(havoced, head)
+                lemmas_at(i, "break")
                 return  # continue after the loop with the state at the break
             self.check_loop_frame(havoced, head)
+            lemmas_at(i, "end")
             if cont is not None:
                 # python raises RuntimeError when a dict/set changes size during iteration
                 self.oblige("%s.no_resize" % tag, self.heap.c_len(cont.ty, cont.z) == n, site=tag, kind="inv")
@@ -1994,6 +2098,7 @@ class Run:
         # loop exit without break
         self.assume(n >= 0)
         inv_at(n, "assume", True)
+        lemmas_at(n, "exit")
         self.exec_block(s.orelse)
 
     def st_While(self, s):
